@@ -244,6 +244,10 @@ class Walker:
                 got = self.field_of_new(base, node.attr)
                 if got is not None:
                     return got
+            if base[0] == 'obj':
+                for a, val in base[3]:
+                    if a == node.attr:
+                        return val
             return v
         if isinstance(node, ast.Call):
             args = []
@@ -263,7 +267,15 @@ class Walker:
                 else:
                     kwl.append((kw.arg, v_))
             kwargs = tuple(kwl)
-            args = tuple(args)
+            flat = []
+            for a in args:
+                if a[0] == 'star' and a[1][0] in ('tuple', 'list') and not any(x[0] == 'star' for x in a[1][1]):
+                    flat.extend(a[1][1])          # f(*(x, y)) is f(x, y)
+                elif a[0] == 'star' and is_const(a[1]) and isinstance(a[1][1], tuple) and all(isinstance(x, (int, str, bytes, bool, type(None))) for x in a[1][1]):
+                    flat.extend(C(x) for x in a[1][1])
+                else:
+                    flat.append(a)
+            args = tuple(flat)
             if isinstance(node.func, ast.Name) and node.func.id in self.facts.classes and node.func.id not in st.env:
                 return ('new', node.func.id, args, kwargs)
             if isinstance(node.func, ast.Attribute):
@@ -278,6 +290,12 @@ class Walker:
                         if k == args[0]:
                             return v
                     return args[1] if len(args) > 1 else C(None)
+                if recv[0] == 'obj':
+                    meth = self.method_of_obj(recv, node.func.attr)
+                    if meth is not None:
+                        r = self.eval_fn(meth, (recv,) + tuple(args), kwargs, st, self.env_of_obj(recv, st))
+                        if r is not None:
+                            return r
                 return ('mcall', recv, node.func.attr, args, kwargs)
             if isinstance(node.func, ast.Name):
                 if node.func.id in st.env:
@@ -375,6 +393,9 @@ class Walker:
                         tbl = self.facts.consts[right[1]]
                     if tbl is not None and 0 < len(tbl) <= 8 and all(isinstance(k, (str, int)) for k in tbl):
                         right = ('tuple', tuple(C(k) for k in tbl))
+                if isinstance(op, (ast.In, ast.NotIn)) and right[0] == 'dict' and right[1] and all(is_const(k) for k, _ in right[1]):
+                    # membership in a dict written out in place: membership in its keys
+                    right = ('tuple', tuple(k for k, _ in right[1]))
                 c_ = ('cmp', _CMPS[type(op)], left, right)
                 if is_const(left) and is_const(right) and _CMPS[type(op)] in ('==', '!=', 'is', 'is not'):
                     # constant comparison (None == 0 after inlining a helper that returned None)
@@ -645,8 +666,38 @@ class Walker:
                     self._inline_stack.pop()
         return cache[name]
 
+    def namedtuple_values(self, obj):
+        """Field values, in order, of `P(..)` for a class P(typing.NamedTuple); None when P is not one or an argument is missing."""
+        ci = self.facts.classes.get(obj[1])
+        fields = getattr(ci.node, '_nt_fields', None) if ci is not None else None
+        if fields is None:
+            return None
+        names = [f for f, _ in fields]
+        bound = {}
+        for i, a in enumerate(obj[2]):
+            if a[0] == 'star' or i >= len(names):
+                return None
+            bound[names[i]] = a
+        for k, a in obj[3]:
+            if k is None or k not in names or k in bound:
+                return None
+            bound[k] = a
+        out = []
+        for f, default in fields:
+            if f in bound:
+                out.append(bound[f])
+            elif default is not None:
+                out.append(self.sym(default, PathState()))
+            else:
+                return None
+        return out
+
     def field_of_new(self, obj, attr):
         """obj.attr for a freshly constructed object whose __init__ stores its parameters in attributes."""
+        nt = self.namedtuple_values(obj)
+        if nt is not None:
+            names = [f for f, _ in self.facts.classes[obj[1]].node._nt_fields]
+            return nt[names.index(attr)] if attr in names else None
         try:
             params = [p_ for p_, _ in self.facts.init_params(obj[1])]
             order = dict(self.facts.full_attr_order(obj[1]))
@@ -670,14 +721,69 @@ class Walker:
     def eval_call(self, target, args, kwargs, st):
         """Value of calling a lambda / local-closure value when its body is a single effect-free path (predicate factories,
         builders, small local helpers used inside expressions); None when it cannot be evaluated in place."""
+        if target[0] == 'obj':
+            # an instance of a local class is called: its __call__
+            meth = self.method_of_obj(target, '__call__')
+            if meth is None:
+                return None
+            return self.eval_fn(meth, (target,) + tuple(args), kwargs, st, self.env_of_obj(target, st))
         fn, cenv = self.fn_of_value(target)
         if fn is None:
             return None
+        if isinstance(fn, ast.ClassDef):
+            return self.instantiate(fn, args, kwargs, st, cenv)
         return self.eval_fn(fn, args, kwargs, st, cenv)
+
+    # -- instances of classes defined inside the function that is walked (record / callable helper classes) -------------------
+    def instantiate(self, cls, args, kwargs, st, cenv):
+        """('obj', class name, id(class node), ((attr, value), ..), env uid) for `Cls(args)` when __init__ only stores expressions
+        over its parameters in attributes; None otherwise."""
+        if cls.bases or cls.keywords or cls.decorator_list:
+            return None
+        init = next((m for m in cls.body if isinstance(m, ast.FunctionDef) and m.name == '__init__'), None)
+        fields = []
+        env = dict(cenv) if cenv is not None else dict(st.env)
+        if init is not None:
+            if len(init.args.args) < 1:
+                return None
+            selfname = init.args.args[0].arg
+            e2 = dict(env)
+            if not self.bind_args(init, (('sym', 'SELF'),) + tuple(args), kwargs, e2):
+                return None
+            s2 = PathState()
+            s2.env = e2
+            s2.facts = st.facts
+            for stmt in init.body:
+                if isinstance(stmt, ast.Expr) and isinstance(stmt.value, ast.Constant):
+                    continue
+                if not (isinstance(stmt, ast.Assign) and len(stmt.targets) == 1 and isinstance(stmt.targets[0], ast.Attribute)
+                        and isinstance(stmt.targets[0].value, ast.Name) and stmt.targets[0].value.id == selfname):
+                    return None
+                if any(isinstance(n, ast.Name) and n.id == selfname for n in ast.walk(stmt.value)):
+                    return None
+                fields.append((stmt.targets[0].attr, self.sym(stmt.value, s2)))
+        elif args or kwargs:
+            return None
+        uid = self.new_fnval(cls, env)
+        return ('obj', cls.name, id(cls), tuple(fields), uid)
+
+    def class_of_obj(self, obj):
+        return self.__dict__.get('_closures', {}).get(obj[2])
+
+    def method_of_obj(self, obj, name):
+        cls = self.class_of_obj(obj)
+        if cls is None:
+            return None
+        return next((m for m in cls.body if isinstance(m, ast.FunctionDef) and m.name == name and not m.decorator_list), None)
+
+    def env_of_obj(self, obj, st):
+        return self.__dict__.get('_fnvals', {}).get(obj[4], (None, None))[1]
 
     def eval_fn(self, fn, args, kwargs, st, cenv=None):
         """Value of calling the function `fn` (a node: lambda, closure, module-level function, method with self as first
         argument) when all its paths are effect-free; None when it cannot be evaluated in place."""
+        if isinstance(fn, ast.ClassDef):
+            return self.instantiate(fn, args, kwargs, st, cenv)
         depth = self.__dict__.setdefault('_eval_depth', [0])
         name = getattr(fn, 'name', '<lambda>')
         if depth[0] >= 8 or (name != '<lambda>' and self._inline_stack.count(name) >= 2):
@@ -1423,6 +1529,9 @@ class Walker:
         elif isinstance(tgt, (ast.Tuple, ast.List)):
             n = len(tgt.elts)
             star = [i for i, e in enumerate(tgt.elts) if isinstance(e, ast.Starred)]
+            nt = self.namedtuple_values(v) if v[0] == 'new' else None
+            if nt is not None and not star and len(nt) == n:
+                v = ('tuple', tuple(nt))
             for i, e in enumerate(tgt.elts):
                 if v[0] in ('tuple', 'list') and not star and len(v[1]) == n:
                     self.assign(e, v[1][i], st, node)
